@@ -16,6 +16,10 @@ func init() { register("C20", checkC20) }
 type c20Extra struct {
 	Del string `json:"del"` // page with the marked subtrees deleted
 	Ren string `json:"ren"` // page with the markers renamed to neutral values
+	// Nested: where the one marked subtree that is not a block between blocks stands ("" = none):
+	// inside a cell of a data table, inside a figure caption, alone inside a wrapper in running text,
+	// or inside a by-line element. These structures are copied or judged as a whole.
+	Nested string `json:"nested,omitempty"`
 }
 
 var c20Markers = []string{"sidebar", "footer", "menu", "banner", "breadcrumbs", "related", "social", "sponsor", "popup", "pager", "rss", "extra",
@@ -134,6 +138,28 @@ func (g *G) c20Marked() string {
 	return c20SubOpen + "<" + tag + c20MarkOpen + g.c20Marker() + c20MarkClose + ">" + inner + "</" + tag + ">\n" + c20SubClose
 }
 
+// c20Nested renders one marked subtree inside a structure that the distiller copies or judges as a
+// whole (DESIGN §6.1: known findings of C20).
+func (g *G) c20Nested(kind string) string {
+	inner := g.words(g.intn(30, 90, "nwords"))
+	switch kind {
+	case "in-data-table-cell":
+		// class and id markers are exempt below a <table> by an explicit rule, so the marker is a role
+		m := c20SubOpen + "<div" + c20MarkOpen + ` role="` + g.pick("nrole", "navigation", "complementary", "menu", "dialog") + `"` + c20MarkClose + ">" + inner + "</div>" + c20SubClose
+		return "<table><caption>" + g.words(3) + "</caption><tr><th>" + g.words(1) + "</th><th>" + g.words(1) + "</th></tr><tr><td>" + g.words(5) + " " + m + "</td><td>" + g.words(4) +
+			"</td></tr><tr><td>" + g.words(2) + "</td><td>" + g.words(2) + "</td></tr></table>\n"
+	case "in-figcaption":
+		m := c20SubOpen + "<span" + c20MarkOpen + g.c20Marker() + c20MarkClose + ">" + inner + "</span>" + c20SubClose
+		return `<figure><img src="` + g.url("img") + `" width="800" height="600"><figcaption>` + g.words(5) + " " + m + "</figcaption></figure>\n"
+	case "in-lone-wrapper":
+		m := c20SubOpen + "<span" + c20MarkOpen + g.c20Marker() + c20MarkClose + ">" + inner + "</span>" + c20SubClose
+		return "<div>" + g.words(g.intn(20, 40, "nw1")) + " <div>" + m + "</div> " + g.words(g.intn(20, 40, "nw2")) + "</div>\n"
+	default: // in-byline-parent
+		m := c20SubOpen + "<span" + c20MarkOpen + g.c20Marker() + c20MarkClose + ">" + inner + "</span>" + c20SubClose
+		return `<div class="author">` + g.words(2) + " " + m + "</div>\n"
+	}
+}
+
 func genC20(t *rapid.T) *Case {
 	p := articleProfile()
 	p.Inline = []wc{{"text", 70}, {"b", 5}, {"em", 5}, {"a", 6}, {"font", 4}, {"ajs1", 4}, {"span", 4}, {"br", 2}}
@@ -165,7 +191,16 @@ func genC20(t *rapid.T) *Case {
 		pos := g.intn(0, len(blocks), "tpos")
 		blocks = append(blocks[:pos], append([]string{g.dataTable()}, blocks[pos:]...)...)
 	}
+	nested := ""
+	if g.chance(15, "nested") {
+		nested = g.pick("nestedkind", "in-data-table-cell", "in-figcaption", "in-lone-wrapper", "in-byline-parent")
+		pos := g.intn(1, max(1, len(blocks)-1), "npos")
+		blocks = append(blocks[:pos], append([]string{g.c20Nested(nested)}, blocks[pos:]...)...)
+	}
 	nm := g.intn(1, 3, "nmarked")
+	if nested != "" {
+		nm = g.intn(0, 1, "nmarkedn")
+	}
 	for i := 0; i < nm; i++ {
 		pos := g.intn(0, len(blocks), "mpos")
 		marked := g.c20Marked()
@@ -209,7 +244,7 @@ func genC20(t *rapid.T) *Case {
 		c.Opts.URL = "http://example.com/a/story.html"
 		c.Opts.Skip = true
 	}
-	c.SetExtra(c20Extra{Del: del, Ren: ren})
+	c.SetExtra(c20Extra{Del: del, Ren: ren, Nested: nested})
 	return c
 }
 
@@ -263,7 +298,13 @@ func checkC20(c *Case) (*Violation, caseInfo) {
 		case rd.Res.Text != map[string]callOutcome{"pruned": rdel, "fallback": rren}[branch].Res.Text:
 			field = "Text"
 		}
-		viol = violationf("C20 differs-from-"+branch+" field="+field,
+		sig := "C20 differs-from-" + branch + " field=" + field
+		if ex.Nested != "" {
+			// the marked subtree stands inside a structure that is copied or judged as a whole
+			// (either branch: the extra words can also move the page across the 500-word threshold)
+			sig = "C20 marked-subtree-inside-whole-structure placement=" + ex.Nested
+		}
+		viol = violationf(sig,
 			"the remaining page yields %d words, so the result must equal that of the page with %s, but it differs (WordCount %d vs %d):\n%s",
 			wcDel, map[string]string{"pruned": "the marked subtrees deleted", "fallback": "the markers renamed"}[branch],
 			rd.Res.WordCount, map[string]callOutcome{"pruned": rdel, "fallback": rren}[branch].Res.WordCount, firstDiff(got, want))
